@@ -89,10 +89,17 @@ def _mems(fields):
     return [b, b + 1, b + 37, DEFAULT_MEM]
 
 
-def _case(fields, boundary, mem, framing, final_crlf=True):
+ORDERS = ['forms', 'files', 'post']
+_counter = [0]
+
+
+def _case(fields, boundary, mem, framing, final_crlf=True, order=None, prelude=None):
     kind, pieces, script, tail = framing
+    _counter[0] += 1
+    n = _counter[0]
     return dict(fields=[list(f) for f in fields], boundary=boundary, mem=mem, framing=kind, pieces=pieces,
-                script=list(script), tail=tail, final_crlf=bool(final_crlf))
+                script=list(script), tail=tail, final_crlf=bool(final_crlf),
+                order=order or ORDERS[n % 3], prelude=bool(n % 4 == 0) if prelude is None else bool(prelude))
 
 
 SEQ_PARTS = [
@@ -104,6 +111,7 @@ SEQ_PARTS = [
 
 def gen_cases(tier, seed):
     quick = tier == 'quick'
+    _counter[0] = 0
     nf = len(FRAMINGS)
     i = 0
     # (0) no parts at all
@@ -122,9 +130,9 @@ def gen_cases(tier, seed):
         for ct in CTYPES:
             singles.append(('file', name, 'up.bin', ct, b'\r\n-\x00'))
     for f in singles:
-        for bd in (BOUNDARIES if not quick else BOUNDARIES[:3]):
+        for bd in BOUNDARIES:
             mems = _mems([f])
-            for k in range(2 if quick else 4):
+            for k in range(3 if quick else 4):
                 i += 1
                 yield _case([f], bd, mems[(i + k) % 4], FRAMINGS[(i * 3 + k * 5) % nf], (i + k) % 5 != 0)
     for bd in BOUNDARIES:
@@ -132,7 +140,7 @@ def gen_cases(tier, seed):
             for name, fn in (('f', 'n'), ('a;b', 'x;y=z.txt')):
                 f = ('file', name, fn, None, data)
                 for mem in _mems([f]):
-                    for fr in (FRAMINGS if not quick else FRAMINGS[:4]):
+                    for fr in FRAMINGS:
                         yield _case([f], bd, mem, fr, True)
     # (2) sequences: order, duplicates, interleaving, same name as text and as file
     maxseq = 3 if quick else 4
@@ -145,7 +153,7 @@ def gen_cases(tier, seed):
                 for k in range(3 if quick else 4):
                     yield _case(fields, bd, mems[(i + k) % 4], FRAMINGS[(i + 3 * k) % nf], (i + k) % 4 != 0)
     # (3) small-scope adversarial content for boundary X: all strings over {CR, LF, -, X, a}
-    maxd = 4 if quick else 6
+    maxd = 5 if quick else 6
     delim = b'\r\n--X'
     for n in range(1, maxd + 1):
         for t in itertools.product(b'\r\n-Xa', repeat=n):
@@ -229,6 +237,36 @@ def _is_upload(x):
     return hasattr(x, 'file') and hasattr(x, 'raw_filename')
 
 
+ACCESS = {'forms': ('forms', 'files', 'POST'), 'files': ('files', 'POST', 'forms'), 'post': ('POST', 'forms', 'files')}
+
+
+def _probe(f, n):
+    """seek/tell/read arithmetic of the upload's file object for the three whences: [(label, observed, expected-by-content)];
+    expectations are spelled with slices of the TRUE content length n and resolved by the caller."""
+    out = []
+    f.seek(0)
+    r1 = f.read(1)
+    p = f.seek(1, 1)
+    new = min(min(1, n) + 1, n)
+    r2 = f.read(2)
+    out.append(('read(1)', r1, (0, 1)))
+    out.append(('seek(1,1)', p, new))
+    out.append(('read(2) behind seek(1,1)', r2, (new, new + 2)))
+    out.append(('tell', f.tell(), min(new + 2, n)))
+    p = f.seek(-2, 2)
+    out.append(('seek(-2,2)', p, max(n - 2, 0)))
+    out.append(('read() behind seek(-2,2)', f.read(), (max(n - 2, 0), n)))
+    f.seek(n + 5)
+    out.append(('read(4) behind seek(size+5)', f.read(4), (n, n)))
+    try:
+        f.seek(-3)
+        out.append(('read(2) behind seek(-3)', f.read(2), 'window'))
+    except (ValueError, OSError):
+        pass
+    f.seek(0)
+    return out
+
+
 def _read_all(fu):
     f = fu.file
     f.seek(0)
@@ -271,7 +309,10 @@ def run_case(case):
     @app.route('/up', method='POST')
     def h():
         rq = app.request
-        forms, files, post = rq.forms, rq.files, rq.POST
+        got = {}
+        for attr in ACCESS[case.get('order', 'forms')]:
+            got[attr] = getattr(rq, attr)
+        forms, files, post = got['forms'], got['files'], got['POST']
         seen['forms'] = {k: [v if isinstance(v, str) else ('NOT-STR', type(v).__name__) for v in _aslist(val)]
                          for k, val in forms.items()}
         ups = []
@@ -313,7 +354,7 @@ def run_case(case):
                 u.save(sink)
                 size = u.file.seek(0, 2)
                 o.append(dict(name=u.name, filename=u.raw_filename, a=a[id(u)], b=b, c=sink.getvalue(), size=size,
-                              ctype=u.content_type))
+                              ctype=u.content_type, probe=_probe(u.file, len(b))))
             out[k] = o
         seen['files'] = out
         pobs = {}
@@ -337,6 +378,12 @@ def run_case(case):
         env = make_environ('/up', 'POST', stream=stream, content_type=ct, chunked=True)
     else:
         env = make_environ('/up', 'POST', stream=stream, content_type=ct, content_length=len(wire))
+    if case.get('prelude'):
+        # another form on the same application first, using the names of this one: nothing of it may stay behind
+        n0 = fields[0][1] if fields else 'a'
+        pre = ms.encode([('text', n0, 'stale'), ('file', n0, 'stale.bin', 'x/stale', b'STALE'), ('text', 'pre', 'p')], 'PRE')
+        serve(app, make_environ('/up', 'POST', body=pre, content_type=ms.content_type_header('PRE')))
+        seen.clear()
     res = serve(app, env)
     if res.code != 200 or res.exc is not None:
         if not fits and res.exc is None:
@@ -362,6 +409,17 @@ def run_case(case):
         for u, ct_sent in zip(lst, sent_ct[k]):
             if not (u['a'] == u['b'] == u['c']) or u['size'] != len(u['b']):
                 return fail('R4.file_api', name=k, interleaved=u['a'], rewound=u['b'], saved=u['c'], size=u['size'])
+            content = u['b']
+            for label, obs, exp in u['probe']:
+                if exp == 'window':
+                    ok = isinstance(obs, bytes) and obs in content
+                elif isinstance(exp, tuple):
+                    exp = content[exp[0]:exp[1]]
+                    ok = obs == exp
+                else:
+                    ok = obs == exp
+                if not ok:
+                    return fail('R4.file_api.seek', name=k, op=label, observed=obs, expected=exp, content=content[:200])
             if ct_sent is not None and not _ctype_ok(u['ctype'], ct_sent):
                 return fail('R2.ctype', name=k, expected=ct_sent, observed=repr(u['ctype']))
     opost = seen.get('post')
